@@ -1057,7 +1057,16 @@ class Program:
         f = self.fn(path)
         cache = self.__dict__.setdefault("_loops", {})
         if path not in cache:
-            cache[path] = desugar_adaptors(self, f)
+            cache[path] = desugar_adaptors(self, inline_closure_calls(self, f))
+        return cache[path]
+
+    def fn_closure_calls(self, path):
+        """fn(path) with direct calls of closure literals built in it (`let f = |x| ..; f(a)`) spliced in: a local
+        closure called by name is a local helper function."""
+        f = self.fn(path)
+        cache = self.__dict__.setdefault("_cc", {})
+        if path not in cache:
+            cache[path] = inline_closure_calls(self, f)
         return cache[path]
 
     def has_fn(self, path):
@@ -1925,4 +1934,56 @@ def desugar_adaptors(prog, fn):
     nf = Fn(prog, fn.path, d)
     nf.desugared = done
     nf.inlined = list(getattr(fn, "inlined", []) or [])
+    return nf
+
+
+FN_CALLS = ("core::ops::function::Fn::call", "core::ops::function::FnMut::call_mut", "core::ops::function::FnOnce::call_once")
+
+
+def inline_closure_calls(prog, fn, depth=2):
+    blocks = [_copy.copy(b) for b in fn.blocks]
+    locals_ = list(fn.locals)
+    done = []
+    work = [(i, 0) for i in range(len(blocks))]
+    while work:
+        bi, dep = work.pop()
+        t = blocks[bi]["term"]
+        if blocks[bi].get("cleanup") or t["k"] != "call" or t.get("decl") not in FN_CALLS or t.get("dispatch") != "static" or not t.get("resolved_local") or dep >= depth:
+            continue
+        cf = prog.fns.get(t.get("resolved"))
+        if cf is None or cf.kind != "Closure" or len(t.get("args", [])) != 2 or t.get("target") is None:
+            continue
+        host = cf.d.get("closure_of")
+        if host != fn.path and host not in (getattr(fn, "inlined", None) or []):
+            continue
+        tup = t["args"][1]
+        tpl = tup.get("copy") or tup.get("move")
+        nparams = cf.nargs - 1
+        if nparams > 0 and (tpl is None or tpl["p"]):
+            continue
+        lo, bo = len(locals_), len(blocks)
+        locals_.extend(cf.locals)
+        nb = dict(blocks[bi])
+        nb["stmts"] = list(nb["stmts"])
+        at = t.get("at")
+        nb["stmts"].append({"k": "assign", "lhs": {"l": lo + 1, "p": []}, "rv": {"k": "use", "a": t["args"][0]}, "at": at})
+        for i in range(nparams):
+            nb["stmts"].append({"k": "assign", "lhs": {"l": lo + 2 + i, "p": []},
+                                "rv": {"k": "use", "a": {"copy": {"l": tpl["l"], "p": [{"f": str(i)}]}}}, "at": at})
+        nb["term"] = {"k": "goto", "target": bo, "at": at}
+        blocks[bi] = nb
+        for cb in cf.blocks:
+            blocks.append(_renum_block(cb, lo, bo, t["target"], t["dest"], origin=cf.path))
+        done.append(cf.path)
+        for j in range(bo, len(blocks)):
+            work.append((j, dep + 1))
+    if not done:
+        return fn
+    d = {k: v for k, v in fn.d.items() if k not in ("blocks", "locals")}
+    d["locals"] = locals_
+    d["blocks"] = blocks
+    d["arg_count"] = fn.nargs
+    nf = Fn(prog, fn.path, d)
+    nf.inlined = list(getattr(fn, "inlined", []) or []) + done
+    nf.closure_calls_inlined = done
     return nf
